@@ -88,8 +88,8 @@ EXPORT errno_t _memcmp32_s_chk(const uint32_t *dest, rsize_t dlen,
                                const size_t destbos, const size_t srcbos)
 #endif
 {
-    uint32_t smax; /* in bytes */
-    uint32_t dmax; /* in bytes */
+    size_t smax; /* in bytes */
+    size_t dmax; /* in bytes */
 
     /* must be able to return the diff */
     if (unlikely(diff == NULL)) {
@@ -117,15 +117,15 @@ EXPORT errno_t _memcmp32_s_chk(const uint32_t *dest, rsize_t dlen,
         return (RCNEGATE(ESZEROL));
     }
 
+    if (unlikely(dlen > RSIZE_MAX_MEM32)) {
+        invoke_safe_mem_constraint_handler("memcmp32_s: dlen exceeds max",
+                                           (void *)dest, ESLEMAX);
+        return (RCNEGATE(ESLEMAX));
+    }
     smax = slen * 4;
     dmax = dlen * 4;
 
     if (destbos == BOS_UNKNOWN) {
-        if (unlikely(dlen > RSIZE_MAX_MEM32)) {
-            invoke_safe_mem_constraint_handler("memcmp32_s: dlen exceeds max",
-                                               (void *)dest, ESLEMAX);
-            return (RCNEGATE(ESLEMAX));
-        }
         BND_CHK_PTR_BOUNDS(dest, dmax);
         BND_CHK_PTR_BOUNDS(dest, smax);
     } else {
